@@ -33,6 +33,7 @@ func runC07(c *Check) {
 	c07Persisted(c, P, r)
 	c07LockHolders(c, P, r)
 	c07RemoveExact(c, P+".O9", r)
+	c07NoIndexTrap(c, P, r)
 	c07ContainerInit(c, P+".O9", r)
 	c07TeardownOrder(c, P+".O8", r)
 	c07LockOrder(c, P+".O8", r)
@@ -703,6 +704,52 @@ func c07ContainerInit(c *Check, id string, r *GCRoles) {
 		})
 	}
 	c.Report(true, id, "ENTRY-INITIALISATIONS-SCANNED", nil, token.NoPos, "package scan", fmt.Sprintf("%d initialisations of per-topic entries examined", n))
+}
+
+// c07NoIndexTrap: the Pub/Sub's functions run under its locks (Publish, Subscribe, the replay and teardown goroutines); an
+// index that can be out of range panics with the locks held and takes the whole Pub/Sub (or the process) down. Elements
+// are taken by the counter of a range loop over the same slice, or behind a test of its length.
+func c07NoIndexTrap(c *Check, id string, r *GCRoles) {
+	n := 0
+	for _, fn := range r.Funcs {
+		AllInstrs(fn, func(in ssa.Instruction) {
+			ia, ok := in.(*ssa.IndexAddr)
+			if !ok {
+				return
+			}
+			if _, isSl := ia.X.Type().Underlying().(*types.Slice); !isSl {
+				return
+			}
+			n++
+			okIdx := false
+			if bo, isB := ia.Index.(*ssa.BinOp); isB && isRangeCounter(bo) {
+				okIdx = true
+			}
+			if !okIdx {
+				// behind a test that the slice is not empty / long enough
+				for _, t := range Tests(fn) {
+					args, isLen := IsBuiltinCall(t.X, "len")
+					if !isLen || len(args) != 1 || !sameValue(args[0], ia.X) {
+						continue
+					}
+					var safe []Edge
+					switch t.Op {
+					case token.GTR, token.NEQ:
+						safe = append(safe, t.True)
+					case token.EQL, token.LEQ, token.LSS:
+						safe = append(safe, t.False)
+					case token.GEQ:
+						safe = append(safe, t.True)
+					}
+					if GuardedBy(fn, ia, safe) {
+						okIdx = true
+					}
+				}
+			}
+			c.Report(okIdx, id+".O8", "NO-INDEX-TRAP", fn, ia.Pos(), "slice element access", "a slice element is taken by the counter of a range loop or behind a test of the slice's length (an index out of range panics with the Pub/Sub's locks held)")
+		})
+	}
+	c.Floor(id+".O8", "slice element accesses in package gochannel", n, 1)
 }
 
 // c07RemoveExact: unsubscribing removes exactly the given subscription from
